@@ -5,6 +5,8 @@
 // Shared world builder for the whole-pass harnesses: a real state.Cluster fed through its informer entry points, the
 // API-client and cloud-provider models, and the real Provisioner. A pass is Provisioner.Schedule: GetPendingPods,
 // NewScheduler (NodePool listing, instance types, topology, daemon overhead) and Scheduler.Solve.
+// verif:nondeterministic the scheduler breaks ties between equally good domains, NodeClaims and instance types by Go map iteration order; a native run may take another admissible behaviour than the symbolic path
+// verif:assume sample comparison against the real build is restricted to the verdict for these harnesses: the real code breaks ties by randomised map iteration order, the engine iterates in insertion order; violations are always confirmed natively
 
 package provisioning
 
